@@ -159,6 +159,7 @@ fn cfg_strategy_inner(p: Profile, thorough: bool) -> BoxedStrategy<Cfg> {
             }
             Profile::Vis => {
                 c.clients = c.clients.max(2);
+                c.connect_all = b3;
                 c.big = b1;
                 c.refs = b2;
                 prop_oneof![Just(1u8), Just(2u8)].prop_map(move |v| Cfg { vis: v, ..c.clone() }).boxed()
@@ -244,6 +245,7 @@ fn cfg_strategy_inner(p: Profile, thorough: bool) -> BoxedStrategy<Cfg> {
                 c.events = true;
                 c.clients = 3;
                 c.policy = 0;
+                c.connect_all = b1 || b2;
                 prop_oneof![1 => Just(0u8), 2 => Just(2u8), 1 => Just(1u8)].prop_map(move |v| Cfg { vis: v, ..c.clone() }).boxed()
             }
             Profile::Tracked => {
@@ -377,6 +379,14 @@ pub fn run_case(id: &'static str, case: &Case, or: Oracles, nontrivial: fn(&Sim)
         sim.connect(0);
         if case.cfg.auth == 1 && !(or.unauth) {
             sim.authorize(0);
+        }
+        if case.cfg.connect_all {
+            for i in 1..case.cfg.clients {
+                sim.connect(i);
+                if case.cfg.auth == 1 && !(or.unauth) {
+                    sim.authorize(i);
+                }
+            }
         }
         let debug = std::env::var("VH_DEBUG").is_ok();
         for st in &case.steps {
